@@ -101,6 +101,7 @@ class _Env:
         self.factory = G.IndexFactory(self.root)
         self.cond_abs = self.root / "COND"
         self.E = E
+        self.wd = G.Watchdog()
         self._raw = {}
         self.ids = {}
 
@@ -134,16 +135,6 @@ def _json(deps, n, root=None):
     return d
 
 
-def _call(fn, *args):
-    """(value, exception) of a real call; harness exceptions propagate."""
-    try:
-        return fn(*args), None
-    except Exception as ex:  # noqa: BLE001 -- observation about the code under test
-        if G.raised_by_harness(ex):
-            raise
-        return None, ex
-
-
 def _eval_main(env, n, deps, tally):
     E = env.E
     tasks = {G.task_name(i): env.raw(i, tuple(":" + _name(j, n) for j in deps[i]))
@@ -157,13 +148,18 @@ def _eval_main(env, n, deps, tally):
     for r in range(n + 1):
         ti = env.factory.make({G.COND: tasks})
         rid = env.ident(_name(r, n))
-        _, ex = _call(ti.load_transitive_closure, rid)
+        _, ex = env.wd.call(ti.load_transitive_closure, rid)
         reach = G.reach_star(deps, r, n)
         cyc = any(v in reach for v in on_cycle)
         undef = r >= n or any(v in reach for v in lists_undef)
         size = (n, edges, r)
         nontrivial = r < n and len(deps[r]) > 0
         tally.ev(ACCEPT, nontrivial)
+        if isinstance(ex, G.NonTermination):
+            tally.fail(ACCEPT, size, {
+                "clause": "terminates", "class": "non-termination", "input": _json(deps, n, r),
+                "expected": "returns or raises", "observed": str(ex)})
+            continue
         if ex is None:
             if cyc or undef:
                 tally.fail(ACCEPT, size, {
@@ -205,10 +201,15 @@ def _eval_main(env, n, deps, tally):
     # ---------------- validate_all_loaded_tasks on all tasks of the file
     ti = env.factory.make({G.COND: tasks})
     ti.load_all_tasks_in_cond_file(G.COND)
-    val, ex = _call(ti.validate_all_loaded_tasks)
+    val, ex = env.wd.call(ti.validate_all_loaded_tasks)
     any_cyc, any_undef = bool(on_cycle), bool(lists_undef)
     size = (n, edges, 0)
     tally.ev(VREJ, n >= 2 and edges >= 1)
+    if isinstance(ex, G.NonTermination):
+        tally.fail(VREJ, size, {
+            "clause": "terminates", "class": "non-termination", "input": _json(deps, n),
+            "expected": "returns or raises", "observed": str(ex)})
+        return
     if ex is None and (any_cyc or any_undef):
         tally.fail(VREJ, size, {
             "clause": "rejects_iff", "class": "accepted-defective-project",
@@ -272,10 +273,15 @@ def _eval_dup(env, n, seqs, tally):
     # get_task(t): materialises exactly t
     for i in range(n):
         ti = env.factory.make({G.COND: tasks})
-        _, ex = _call(ti.get_task, env.ident(G.task_name(i)))
+        _, ex = env.wd.call(ti.get_task, env.ident(G.task_name(i)))
         tally.ev(DUP, any_dup)
         raised_dup = isinstance(ex, E.DuplicateDependency)
-        if raised_dup != has_dup[i] or (ex is not None and not raised_dup):
+        if isinstance(ex, G.NonTermination):
+            tally.fail(DUP, size_base + (i,), {
+                "clause": "terminates", "class": "non-termination",
+                "input": _dup_json(seqs, n, task=i), "expected": "returns or raises",
+                "observed": str(ex)})
+        elif raised_dup != has_dup[i] or (ex is not None and not raised_dup):
             tally.fail(DUP, size_base + (i,), {
                 "clause": "materialize",
                 "class": "duplicate-dependency-accepted" if has_dup[i] else "distinct-dependencies-rejected",
@@ -286,11 +292,17 @@ def _eval_dup(env, n, seqs, tally):
     # load_transitive_closure(root)
     for r in range(n):
         ti = env.factory.make({G.COND: tasks})
-        _, ex = _call(ti.load_transitive_closure, env.ident(G.task_name(r)))
+        _, ex = env.wd.call(ti.load_transitive_closure, env.ident(G.task_name(r)))
         reach = G.reach_star(deps, r, n)
         dup_r = any(has_dup[v] for v in reach)
         cyc_r = any(v in reach for v in on_cycle)
         tally.ev(DUP, any_dup)
+        if isinstance(ex, G.NonTermination):
+            tally.fail(DUP, size_base + (r,), {
+                "clause": "terminates", "class": "non-termination",
+                "input": _dup_json(seqs, n, root=r), "expected": "returns or raises",
+                "observed": str(ex)})
+            continue
         if ex is None:
             ok = not dup_r and not cyc_r
         elif isinstance(ex, E.DuplicateDependency):
@@ -331,6 +343,8 @@ def _worker(arg):
                 idx, rem = divmod(idx, len(lists))
                 cfg.append(lists[rem])
             deps = tuple(cfg)
+            if env.wd.exhausted:
+                break
             if n >= 4 and not G.has_cycle(deps, n) and all(j < n for d in deps for j in d):
                 continue  # a dangling-free DAG: evaluated in the DAG block below
             _eval_main(env, n, deps, tally)
@@ -342,6 +356,8 @@ def _worker(arg):
         dag_orders = G.labelled_dag_orders(n, n)
         first = (shard - item) % nshards
         for k in range(first, len(dag_orders), nshards):
+            if env.wd.exhausted:
+                break
             _eval_main(env, n, dag_orders[k], tally)
             if k == first:
                 for nm in (ACCEPT, VROOT):
@@ -357,11 +373,13 @@ def _worker(arg):
             for _ in range(n):
                 idx, rem = divmod(idx, len(seqs_all))
                 cfg.append(seqs_all[rem])
+            if env.wd.exhausted:
+                break
             _eval_dup(env, n, tuple(cfg), tally)
             if k == first:
                 tally.sample(DUP, _dup_json(tuple(cfg), n, root=0))
         item += total
-    return tally
+    return tally, not env.wd.exhausted
 
 
 def run(tier, seed):
@@ -371,14 +389,15 @@ def run(tier, seed):
         tallies = G.run_sharded(_worker, {"tier": tier, "root": root}, nshards=G.n_processes() * 8)
     finally:
         shutil.rmtree(root, ignore_errors=True)
-    total = G.merge_tallies(tallies, NAMES)
+    total = G.merge_tallies([t for t, _ in tallies], NAMES)
+    complete = all(c for _, c in tallies)
     wall = time.time() - t0
     out = []
     for name in NAMES:
         c = total.get(name)
         out.append(result(
             name, "C14", FUNCS[name], _scope_dup(tier) if name == DUP else _scope_main(tier),
-            exhaustive=True, evaluations=c["ev"], distinct_nontrivial=c["nt"], rule=RULES[name],
+            exhaustive=complete, evaluations=c["ev"], distinct_nontrivial=c["nt"], rule=RULES[name],
             failures=total.failures(name), samples=c["samples"], wall_s=wall, n_failures=c["nf"]))
     return out
 
